@@ -41,7 +41,7 @@ pub fn build_writer(hist: &[Op]) -> Writer {
         let o = exec_writer(&mut core, op, n);
         m.apply(op);
         if !o.is_ok() {
-            panic!("harness: writer history failed at {}: {}", op.brief(), o.map(|_| ()).brief());
+            crate::sup::setup_failed(serde_json::json!(hist), &format!("writer history [{}] failed at {}: {}", hist_brief(hist), op.brief(), o.map(|_| ()).brief()));
         }
     }
     let tree = scheme::RefTree::build(&m.orig);
